@@ -136,6 +136,9 @@ theories/Proofs/ArgTables.vos theories/Proofs/ArgTables.vok theories/Proofs/ArgT
 theories/Proofs/Args.vo theories/Proofs/Args.glob theories/Proofs/Args.v.beautified theories/Proofs/Args.required_vo: theories/Proofs/Args.v theories/Base/Sx.vo theories/Model/ArgTypes.vo theories/Model/Args.vo
 theories/Proofs/Args.vio: theories/Proofs/Args.v theories/Base/Sx.vio theories/Model/ArgTypes.vio theories/Model/Args.vio
 theories/Proofs/Args.vos theories/Proofs/Args.vok theories/Proofs/Args.required_vos: theories/Proofs/Args.v theories/Base/Sx.vos theories/Model/ArgTypes.vos theories/Model/Args.vos
+theories/Proofs/ArgsReq.vo theories/Proofs/ArgsReq.glob theories/Proofs/ArgsReq.v.beautified theories/Proofs/ArgsReq.required_vo: theories/Proofs/ArgsReq.v theories/Base/Sx.vo theories/Model/Stats.vo theories/Model/ReqSM.vo theories/Proofs/ReqSM.vo
+theories/Proofs/ArgsReq.vio: theories/Proofs/ArgsReq.v theories/Base/Sx.vio theories/Model/Stats.vio theories/Model/ReqSM.vio theories/Proofs/ReqSM.vio
+theories/Proofs/ArgsReq.vos theories/Proofs/ArgsReq.vok theories/Proofs/ArgsReq.required_vos: theories/Proofs/ArgsReq.v theories/Base/Sx.vos theories/Model/Stats.vos theories/Model/ReqSM.vos theories/Proofs/ReqSM.vos
 theories/Proofs/Client.vo theories/Proofs/Client.glob theories/Proofs/Client.v.beautified theories/Proofs/Client.required_vo: theories/Proofs/Client.v theories/Model/Client.vo
 theories/Proofs/Client.vio: theories/Proofs/Client.v theories/Model/Client.vio
 theories/Proofs/Client.vos theories/Proofs/Client.vok theories/Proofs/Client.required_vos: theories/Proofs/Client.v theories/Model/Client.vos
